@@ -269,6 +269,8 @@ def run_shard(desc):
     def body(rnd, st_):
         g = dg.Gen(rnd, idc=False)
         cls = xmlschema.XMLSchema11 if rnd.random() < .3 else xmlschema.XMLSchema10
+        if cls is xmlschema.XMLSchema11:
+            dg.mark_inheritable(g, rnd)
         s = cls(g.xsd())
         tree = g.inst()
         doc = dg.ser(tree, default_ns=rnd.random() < .4)
